@@ -1785,6 +1785,8 @@ def replay_c07_ref(args):
                     bad.append(("double", a[0] % 1000))
                 if un(m.neg(mk(a))) != (a[0], -a[1] % p):
                     bad.append(("neg",))
+                if m.eq(mk(a), mk(a)) is not True or (b is not None and bool(m.eq(mk(a), mk(b))) != (a == b)) or m.eq(mk(a), None) or not m.eq(None, None):
+                    bad.append(("eq",))
                 bb = (a[1] ** 2 - a[0] ** 3) % p
                 if not m.is_on_curve(mk(a), FQ(bb)) or m.is_on_curve(mk(a), FQ(bb + 1)):
                     bad.append(("is_on_curve",))
